@@ -35,7 +35,10 @@ RULE = (
     "(bzip2 write_set/generate_contents, uncompressed add_contents_to_tarfile/convert_archive, foreign-style archive "
     "with hardlink chains), in sorted and reversed contents order, and once per directory-denoting symlink with the "
     "directory's descendants spelled through that symlink; each round trip is compared entry by entry with an lstat "
-    "snapshot. One evaluation = one (tree, writer, order, alias) round trip. A class is (writer, feature observed in the "
+    "snapshot. Write histories: for every tree of size <= 2 (and core subsets of size 3) the tree is built once and every "
+    "sequence of 2 (quick) / 3 (thorough) writes over {bz2 sorted, plain reversed, bz2 with one entry dropped, one-hop "
+    "aliased spellings} is performed by one process without recreating the tree, each archive read back and judged on "
+    "its own. One evaluation = one archive written and read back. A class is (writer, feature observed in the "
     "read-back set: kind, hardlink group size, symlink form, setuid/owner/fractional mtime, alias depth, error type)."
 )
 ASSUMPTIONS = [
@@ -55,9 +58,9 @@ ASSUMPTIONS = [
 ]
 BOUNDS = {
     "quick": "universe of 31 entry specs (incl. siblings /l10, /l1x/f of the directory symlink /l1): all subsets of size <= 3 + all subsets of size 4-5 of a 12-spec "
-    "core (hardlink triple x alias chain x fifo x device); x 3 writers, 2 orders, every alias variant; empty archives",
+    "core (hardlink triple x alias chain x fifo x device); x 3 writers, 2 orders, every alias variant; empty archives; write histories of depth 2 over 682 trees (subsets of size <= 2 + core subsets of size 3)",
     "thorough": "universe of 37 entry specs (adds prefix-siblings /l1y, /l1_, 120-char name, non-ASCII name with space, uid 3000000, symlink to parent): "
-    "all subsets of size <= 4 + core subsets of size 5-7; same variants",
+    "all subsets of size <= 4 + core subsets of size 5-7; same variants; write histories of depth 3 over 885 trees",
 }
 
 CASE_CPU_TIMEOUT = 10  # seconds of CPU (ITIMER_VIRTUAL): a looping conversion
@@ -176,6 +179,8 @@ def tasks(tier):
     c = CHUNK[tier]
     out = [("trees", tier, i, min(i + c, n)) for i in range(0, n, c)]
     out.append(("empty", tier, 0, 0))
+    nh, ch = len(_hist_trees(tier)), HIST_CHUNK[tier]
+    out += [("hist", tier, i, min(i + ch, nh)) for i in range(0, nh, ch)]
     return out
 
 
@@ -484,18 +489,15 @@ def _features(obs, writer, order, alias_hops):
     return {f"{writer}:{t}" for t in tags}
 
 
-def round_trip(scratch, specs, writer, order, alias):
-    """Build, write, read back, compare.  Returns (messages, class tags)."""
+def write_read(root, snap, specs, out, writer, order, alias, drop=False):
+    """One archive of the tree standing at ``root``: write, read back, compare.  Returns (messages, class tags).
+    ``drop``: the contents set leaves out the last non-directory entry (a different set sharing the other files)."""
     from pkgcore.fs import contents, livefs
     from pkgcore.fs import tar as ptar
     from pkgcore.fs._tar import tarfile as ptarfile
 
-    root = os.path.join(scratch, "t")
-    out = os.path.join(scratch, "a.tar")
-    shutil.rmtree(root, ignore_errors=True)
-    build_tree(root, specs)
-    snap = snapshot(root)
     hops = 0
+    expect = snap
     old = signal.signal(signal.SIGALRM, _alarm)
     oldv = signal.signal(signal.SIGVTALRM, _alarm)
     signal.alarm(CASE_WALL_TIMEOUT)
@@ -507,6 +509,10 @@ def round_trip(scratch, specs, writer, order, alias):
                 result = ptar.generate_contents(out)
             else:
                 entries = sorted(livefs.scan(root, offset=root, chksum_types=("size",)), key=lambda x: x.location)
+                if drop:
+                    victim = dropped_path(snap)
+                    entries = [x for x in entries if x.location != victim]
+                    expect = {k: v for k, v in snap.items() if k != victim}
                 if alias is not None:
                     cand = {a: (d, h) for a, d, h in alias_variants(specs)}
                     d, hops = cand[alias]
@@ -537,7 +543,85 @@ def round_trip(scratch, specs, writer, order, alias):
         return [f"no result within {CASE_CPU_TIMEOUT}s of CPU (non-terminating conversion)"], {f"{writer}:error-timeout"}
     except Exception as e:
         return [f"round trip raised {type(e).__name__}: {e}"], {f"{writer}:error-{type(e).__name__}"}
-    return _compare(snap, obs), _features(obs, writer, order, hops)
+    return _compare(expect, obs), _features(obs, writer, order, hops)
+
+
+def dropped_path(snap):
+    """The entry a 'drop' contents set leaves out: the last non-directory path (None if the tree has none)."""
+    cands = sorted(p for p, e in snap.items() if e["kind"] != "dir")
+    return cands[-1] if cands else None
+
+
+def round_trip(scratch, specs, writer, order, alias):
+    """Build a fresh tree, write one archive, read back, compare.  Returns (messages, class tags)."""
+    root = os.path.join(scratch, "t")
+    shutil.rmtree(root, ignore_errors=True)
+    build_tree(root, specs)
+    return write_read(root, snapshot(root), specs, os.path.join(scratch, "a.tar"), writer, order, alias)
+
+
+# ---------------------------------------------------------------------------------------------
+# write histories: several archives of ONE on-disk tree written by one process
+
+
+def history_writes(specs):
+    """The per-step alphabet: (writer, order, alias, drop).  Same set through both pkgcore writers, a different set
+    sharing files (one entry dropped), and the one-hop aliased spellings (two-hop aliases are the registered
+    alias-chain finding and stay in the single-write sweep)."""
+    out = [("bz2", "fwd", None, False), ("plain", "rev", None, False)]
+    if any(s[0] != "d" for s in specs):
+        out.append(("bz2", "fwd", None, True))
+    for a, _d, h in alias_variants(specs):
+        if h == 1:
+            out.append(("bz2", "fwd", a, False))
+    return out
+
+
+def histories(specs, depth):
+    return [list(h) for h in itertools.product(history_writes(specs), repeat=depth)]
+
+
+def run_history(scratch, specs, history):
+    """The tree is built once and NOT recreated between the writes; every archive is read back and judged on its own
+    by the unchanged round-trip oracle.  Returns (messages, class tags, number of archives)."""
+    root = os.path.join(scratch, "t")
+    shutil.rmtree(root, ignore_errors=True)
+    build_tree(root, specs)
+    snap = snapshot(root)
+    msgs, tags = [], set()
+    for i, (writer, order, alias, drop) in enumerate(history):
+        m, t = write_read(root, snap, specs, os.path.join(scratch, f"h{i}.tar"), writer, order, alias, drop)
+        what = f"{writer}/{order}" + (f"/alias {alias}" if alias else "") + ("/one entry dropped" if drop else "")
+        msgs += [f"archive {i + 1} of {len(history)} ({what}): {x}" for x in m[:3]]
+        tags |= {f"history:step{i + 1}:{x.split(':', 1)[1]}" for x in t if ":error-" in x}
+        if i and any(":hardlink-group" in x for x in t):
+            tags.add("history:hardlink-group-in-later-archive")
+        if i and any(":file-" in x for x in t):
+            tags.add("history:file-payload-in-later-archive")
+    if not msgs:
+        kinds = sorted({("drop" if d else "alias" if a else w) for w, _o, a, d in history})
+        tags.add("history:ok:" + "+".join(kinds))
+    return msgs, tags, len(history)
+
+
+def _hist_trees(tier):
+    """Trees for the history dimension: all consistent subsets of size <= 2 of the universe + all core subsets of size 3."""
+    u = _universe(tier)
+    out = []
+    for k in range(1, 3):
+        for combo in itertools.combinations(range(len(u)), k):
+            specs = [u[i] for i in combo]
+            if _consistent(specs):
+                out.append(specs)
+    for combo in itertools.combinations(range(len(CORE)), 3):
+        specs = [CORE[i] for i in combo]
+        if _consistent(specs):
+            out.append(specs)
+    return out
+
+
+HIST_DEPTH = {"quick": 2, "thorough": 3}
+HIST_CHUNK = {"quick": 25, "thorough": 12}
 
 
 def variants(specs):
@@ -594,6 +678,19 @@ def work(task):
                 if msgs:
                     viol.append({"empty": k, "msg": msgs[0]})
             samples.append({"empty": EMPTY_KINDS})
+        elif kind == "hist":
+            trees = _hist_trees(tier)
+            for i in range(lo, hi):
+                specs = trees[i]
+                for hist in histories(specs, HIST_DEPTH[tier]):
+                    msgs, tags, n = run_history(scratch, specs, hist)
+                    evals += n
+                    for t in tags:
+                        classes[t] = classes.get(t, 0) + 1
+                    if msgs:
+                        viol.append({"specs": specs, "history": [list(w) for w in hist], "msg": "; ".join(msgs[:3])})
+            if hi > lo:
+                samples.append({"specs": trees[hi - 1], "history": histories(trees[hi - 1], HIST_DEPTH[tier])[-1]})
         else:
             trees = _subsets(tier)
             for i in range(lo, hi):
@@ -618,6 +715,8 @@ def replay(case):
         if "empty" in case:
             return empty_case(scratch, case["empty"])[0]
         specs = [list(s) for s in case["specs"]]
+        if "history" in case:
+            return run_history(scratch, specs, [tuple(w) for w in case["history"]])[0]
         return round_trip(scratch, specs, case["writer"], case["order"], case.get("alias"))[0]
     finally:
         shutil.rmtree(scratch, ignore_errors=True)
